@@ -17,13 +17,33 @@ pub fn handle(w: &[&str]) -> String {
     match w {
         ["dgram", "enc", sid, ph, pat] => {
             let (Ok(s), Some(p)) = (sid.parse::<u64>(), parse_hex(ph)) else { return "bad-op".into() };
-            let ks: Vec<usize> = if *pat == "all" {
+            // pattern steps: `k` take min(k, chunk) bytes of the current chunk; `r<k>` copy k bytes
+            // through as many chunks as needed (like copy_to_slice); `a<k>` advance(k) directly,
+            // across the header/payload boundary if k says so
+            #[derive(Clone, Copy)]
+            enum Step {
+                Chunk(usize),
+                Read(usize),
+                Adv(usize),
+            }
+            let ks: Vec<Step> = if *pat == "all" {
                 vec![]
             } else {
-                match pat.split(',').map(|x| x.parse::<usize>()).collect::<Result<Vec<_>, _>>() {
-                    Ok(v) => v,
-                    Err(_) => return "bad-op".into(),
+                let mut v = Vec::new();
+                for t in pat.split(',') {
+                    let st = if let Some(n) = t.strip_prefix('r') {
+                        n.parse::<usize>().map(Step::Read)
+                    } else if let Some(n) = t.strip_prefix('a') {
+                        n.parse::<usize>().map(Step::Adv)
+                    } else {
+                        t.parse::<usize>().map(Step::Chunk)
+                    };
+                    match st {
+                        Ok(x) => v.push(x),
+                        Err(_) => return "bad-op".into(),
+                    }
                 }
+                v
             };
             guarded(|| {
                 let Ok(id) = StreamId::try_from(s) else { return "refused".into() };
@@ -31,11 +51,32 @@ pub fn handle(w: &[&str]) -> String {
                 let mut e = d.encode();
                 let rem0 = e.remaining();
                 let mut out = Vec::new();
-                for k in ks {
-                    let c = e.chunk();
-                    let t = k.min(c.len());
-                    out.extend_from_slice(&c[..t]);
-                    e.advance(t);
+                for st in ks {
+                    match st {
+                        Step::Chunk(k) => {
+                            let c = e.chunk();
+                            let t = k.min(c.len());
+                            out.extend_from_slice(&c[..t]);
+                            e.advance(t);
+                        }
+                        Step::Read(k) => {
+                            let mut left = k.min(e.remaining());
+                            while left > 0 {
+                                let c = e.chunk();
+                                let t = left.min(c.len());
+                                if t == 0 {
+                                    break;
+                                }
+                                out.extend_from_slice(&c[..t]);
+                                e.advance(t);
+                                left -= t;
+                            }
+                        }
+                        Step::Adv(k) => {
+                            let t = k.min(e.remaining());
+                            e.advance(t);
+                        }
+                    }
                 }
                 loop {
                     let c = e.chunk();
